@@ -180,6 +180,24 @@ add("C31", "TLC on MultiGrid.tla (index maps of periodic, open and HEALPix grids
     "FlatGrid (serial/nest bijection and round trip), HEALPix, SimpleOpenGrid and logarithmic radial grids.",
     TRUST + "one-axis specification (product grids act axis by axis); open-grid neighbourhoods are specified only where the refinement uses them.")
 
+add("C08", "TLC on PowerBins.tla (exact geometry of harmonic grids and their power spaces) and DomainCache.tla (canonical-object cache over all call histories) + replay of every configuration / history into nifty.cl + volume laws on the real domains",
+    "456 harmonic regular grids (1-2 axes, shapes up to 5x2 / 4x4, four dyadic distances per axis) with natural and custom binnings are specified exactly "
+    "(squared k-length and bin of every pixel, unique lengths, counts and volumes of the bins; TLC: bins partition the grid, bin volumes add up, natural "
+    "bins non-empty; closed form of the LMSpace size) and compared with RGSpace / PowerSpace: k-lengths, unique k-lengths, pindex, bin volumes, mean "
+    "k-length per bin from the member pixels, refusal exactly when a bin is empty. DomainCache.tla specifies the canonical-object cache; TLC checks "
+    "Canonical over all call histories of <=3/4 calls and simulated histories of 7 calls through every entry point (DomainTuple.make, re-make, makeDomain, "
+    "MultiDomain.make in either key order, union, pickling, PowerSpace) are replayed: identical object / == / hash exactly when the descriptions are "
+    "equal; unpickling in a fresh process yields that process's canonical objects. Total volume = sum of pixel volumes is checked on RG (position and "
+    "harmonic), GL, HP, LM, power and DOF spaces.",
+    TRUST + "dyadic distances (exact squares); the merging tolerance of nearly equal k-lengths is not exercised.")
+add("C10", "TLC on PowerBins.tla + replay: dense PowerDistributor and adjoint, exact power_analyze round trips (with/without phase, sub-space of a product domain), create_power_operator, JAX mode distributor",
+    "For each of the 456 binned harmonic grids of PowerBins.tla the PowerDistributor is projected to a dense matrix (M[p,b] = 1 iff pixel p is in bin b) and "
+    "its adjoint to the per-bin sums; power_analyze of the square root of a distributed perfect-square spectrum must return the spectrum exactly, with "
+    "phase information the spectra of real and imaginary part, for a complex field the spectrum of the squared modulus, and over the harmonic sub-space of "
+    "a product domain; create_power_operator with the spectrum as a Field (also on a sub-space) and as a function must be the diagonal of the distributed "
+    "spectrum; nifty.re's get_fourier_mode_distributor must bin the modes identically.",
+    TRUST + "perfect-square spectra make sqrt and bin averages exact.")
+
 
 def main():
     props = [json.loads(l) for l in open(os.path.join(HERE, "properties.jsonl"))]
